@@ -1960,3 +1960,67 @@ pub fn recursive_case(r: &mut Rng) -> (String, Doc, &'static str) {
     }
   }
 }
+
+// ------------------------------------------------------------------------------------------------
+// numeric edges: ranges with reversed / float / huge bounds, comparison controls across int / float /
+// bignum, bignum and decimal-fraction tags with unusual payloads, floats with special values
+
+pub fn numeric_edge_case(r: &mut Rng) -> (String, Doc) {
+  let big = |n: usize, b: u8| Doc::Bytes(vec![b; n]);
+  let ints: Vec<Doc> = [0i128, 1, -1, 23, 24, 255, 256, 65535, 65536, 4294967295, 4294967296, 9223372036854775807, 9223372036854775808, 18446744073709551615, -9223372036854775808, -9223372036854775809, -18446744073709551616]
+    .iter()
+    .map(|n| Doc::Int(*n))
+    .collect();
+  let floats: Vec<Doc> = [0.0f64, -0.0, 1.5, -1.5, 1e300, -1e300, 5e-324, f64::INFINITY, f64::NEG_INFINITY, f64::NAN, 9007199254740993.0, 1.7976931348623157e308, 65504.0, 3.4028234663852886e38]
+    .iter()
+    .map(|x| Doc::Float(*x))
+    .collect();
+  let payloads: Vec<Doc> = vec![
+    Doc::Tag(2, Box::new(big(0, 0))),
+    Doc::Tag(2, Box::new(big(1, 0))),
+    Doc::Tag(2, Box::new(big(8, 0xff))),
+    Doc::Tag(2, Box::new(big(9, 0xff))),
+    Doc::Tag(2, Box::new(big(64, 0x80))),
+    Doc::Tag(3, Box::new(big(0, 0))),
+    Doc::Tag(3, Box::new(big(16, 0xff))),
+    Doc::Tag(2, Box::new(Doc::Int(1))),
+    Doc::Tag(4, Box::new(Doc::Array(vec![Doc::Int(-2), Doc::Int(27315)]))),
+    Doc::Tag(4, Box::new(Doc::Array(vec![Doc::Int(1)]))),
+    Doc::Tag(4, Box::new(Doc::Array(vec![Doc::Int(1), Doc::Int(2), Doc::Int(3)]))),
+    Doc::Tag(4, Box::new(Doc::Array(vec![Doc::Text("a".into()), Doc::Int(2)]))),
+    Doc::Tag(4, Box::new(Doc::Array(vec![Doc::Int(18446744073709551615), Doc::Tag(2, Box::new(big(12, 0xff)))]))),
+    Doc::Tag(5, Box::new(Doc::Array(vec![Doc::Int(-9223372036854775808), Doc::Int(3)]))),
+    Doc::Tag(5, Box::new(Doc::Array(vec![]))),
+    Doc::Tag(4, Box::new(Doc::Null)),
+    Doc::Tag(1, Box::new(Doc::Float(f64::NAN))),
+    Doc::Tag(1, Box::new(Doc::Float(1e300))),
+    Doc::Tag(1, Box::new(Doc::Int(-9223372036854775808))),
+    Doc::Tag(0, Box::new(Doc::Text("9999-99-99T99:99:99Z".into()))),
+  ];
+  let bounds = ["0", "1", "-1", "5", "1.5", "-1.5", "1e300", "-1e300", "18446744073709551615", "-18446744073709551616", "9223372036854775807", "-9223372036854775808", "0.0", "-0.0", "1e400", "0x10", "0x1p4"];
+  let a = *r.pick(&bounds);
+  let b = *r.pick(&bounds);
+  let schema = match r.below(12) {
+    0 => format!("root = {}..{}\n", a, b),
+    1 => format!("root = {}...{}\n", a, b),
+    2 => format!("root = int .lt {} / float .ge {}\n", a, b),
+    3 => format!("root = number .gt {} / number .le {}\n", a, b),
+    4 => format!("root = uint .eq {} / nint .ne {}\n", a, b),
+    5 => "root = biguint / bignint / bigint\n".to_string(),
+    6 => "root = decfrac / bigfloat\n".to_string(),
+    7 => "root = #6.2(bstr) / #6.3(bstr) / #6.4([int, int]) / #6.5([int, integer])\n".to_string(),
+    8 => "root = integer / unsigned / time / tdate\n".to_string(),
+    9 => format!("root = float16 / float32 / float64 .ge {}\n", a),
+    10 => format!("root = (int .plus {}) / (float .plus {})\n", a, b),
+    _ => format!("root = [* ({}..{} / bigint / decfrac / float16-32)]\n", a, b),
+  };
+  let pick = |r: &mut Rng| -> Doc {
+    match r.below(3) {
+      0 => r.pick(&ints).clone(),
+      1 => r.pick(&floats).clone(),
+      _ => r.pick(&payloads).clone(),
+    }
+  };
+  let doc = if schema.contains("[*") { Doc::Array((0..r.range(1, 5)).map(|_| pick(r)).collect()) } else { pick(r) };
+  (schema, doc)
+}
